@@ -688,7 +688,9 @@ fn supervise(check: &'static dyn Check, tier: Tier) -> i32 {
                         continue;
                     }
                     min_v = hv;
-                    min_v.detail = format!("[depends on the {} scenario(s) run before it in the same process] {}", hist.indices.len(), min_v.detail);
+                    if !hist.indices.is_empty() {
+                        min_v.detail = format!("[depends on the {} scenario(s) run before it in the same process] {}", hist.indices.len(), min_v.detail);
+                    }
                 }
                 None => {
                     eprintln!(
